@@ -1331,7 +1331,7 @@ public:
         RegFromBus16(a.GetName(), value);
     }
     void pop_prpage() {
-        regs.prpage = mem.DataRead(regs.sp++);
+        regs.prpage = mem.DataRead(regs.sp++) & 0xF; // 4-bit register, as in mov_prpage
     }
     void pop(Px a) {
         u16 h = mem.DataRead(regs.sp++);
